@@ -139,14 +139,14 @@ fn any_body() -> ([u8; MAX_BODY], usize) {
     (b, len)
 }
 
-fn trace(extractor: &str, h: Hdr, other_first: bool, body: &[u8], fail: bool) {
+fn trace(extractor: &str, h: Hdr, other_first: bool, body: &[u8], fail: bool, trailing: bool) {
     nd::trace(|| {
         let hs = match h {
             Hdr::Absent => "null".to_string(),
             Hdr::NotAscii => "\"<not-ascii>\"".to_string(),
             Hdr::Text(i) => format!("{:?}", TABLE[i].0),
         };
-        format!("{{\"kind\":\"c15b\",\"extractor\":\"{extractor}\",\"header\":{hs},\"other_first\":{other_first},\"bytes\":{body:?},\"parser_fails\":{fail}}}")
+        format!("{{\"kind\":\"c15b\",\"extractor\":\"{extractor}\",\"header\":{hs},\"other_first\":{other_first},\"bytes\":{body:?},\"parser_fails\":{fail},\"trailing\":{trailing}}}")
     });
 }
 
@@ -158,9 +158,12 @@ fn run_json(h: Hdr) -> bool {
     let other_first = matches!(h, Hdr::Text(i) if i % 2 == 1);
     let (b, len) = any_body();
     let fail = nd::any_bool();
-    trace("json", h, other_first, &b[..len], fail);
+    // the document is one JSON value followed by something that is not whitespace
+    let trailing = nd::any_bool();
+    trace("json", h, other_first, &b[..len], fail, trailing);
     unsafe {
         serde_json::verif::FAIL = fail;
+        serde_json::verif::TRAILING = trailing;
         serde_json::verif::BUILT = 0;
     }
     let rh = head(h, other_first);
@@ -174,11 +177,12 @@ fn run_json(h: Hdr) -> bool {
         (Ok(v), _) => {
             assert!(accepted, "a body was deserialized as JSON although the Content-Type is missing or is not a JSON media type");
             assert!(!fail, "the parser failed but the extractor returned a value");
+            assert!(!trailing, "a body that is not one JSON document (a value followed by trailing characters) was accepted");
             assert!(same(v.0.0, &b[..len]), "the bytes handed to the JSON parser are not the bytes of the buffered body");
         }
         (Err(ExtractJsonBodyError::DeserializationError(_)), _) => {
             assert!(accepted, "a Content-Type problem was reported as a deserialization error (the body was parsed although the media type is wrong)");
-            assert!(fail, "a JSON body with a JSON media type that the parser accepts was refused");
+            assert!(fail || trailing, "a JSON body with a JSON media type that the parser accepts was refused");
         }
         (Err(ExtractJsonBodyError::MissingContentType(_)), Hdr::Absent) => {}
         (Err(ExtractJsonBodyError::MissingContentType(_)), Hdr::NotAscii) => {}
@@ -257,7 +261,7 @@ fn run_form(h: Hdr) -> bool {
     let other_first = matches!(h, Hdr::Text(i) if i % 2 == 0);
     let (b, len) = any_body();
     let fail = nd::any_bool();
-    trace("form", h, other_first, &b[..len], fail);
+    trace("form", h, other_first, &b[..len], fail, false);
     unsafe {
         serde_html_form::verif::FAIL = fail;
         serde_html_form::verif::BUILT = 0;
@@ -374,7 +378,7 @@ fn c15b_query() {
         i += 1;
     }
     let fail = nd::any_bool();
-    nd::trace(|| format!("{{\"kind\":\"c15b\",\"extractor\":\"query\",\"header\":null,\"other_first\":false,\"bytes\":{},\"parser_fails\":{fail}}}",
+    nd::trace(|| format!("{{\"kind\":\"c15b\",\"extractor\":\"query\",\"header\":null,\"other_first\":false,\"bytes\":{},\"parser_fails\":{fail},\"trailing\":false}}",
         if has_query { format!("{:?}", &b[..len]) } else { "null".to_string() }));
     unsafe {
         serde_html_form::verif::FAIL = fail;
